@@ -212,6 +212,39 @@ func c16Unit(c *RunCtx, unit int) {
 			return world.Req{Method: "POST", Path: w.P("/recover"), Form: map[string]string{"email": pid}}, pid
 		})
 	}
+	// (c') accounts whose stored password is not a usable hash — created through OAuth2 (no password at
+	// all; their identifiers are guessable), invited / imported with an empty or foreign-format value:
+	// a password login for them fails exactly like one for nobody
+	if N >= 2 {
+		odd := []struct{ pid, pw, what string }{
+			{"oauth2;;alpha;;uid-" + fmt.Sprint(unit), "", "oauth2-account-without-password"},
+			{fmt.Sprintf("invited%d@site.test", unit), "", "empty-stored-password"},
+			{fmt.Sprintf("imported%d@site.test", unit), "$argon2id$v=19$m=65536,t=3,p=4$c29tZXNhbHQ$RdescudvJCsgt3ub+b+dWRWJTmaaJObG", "foreign-hash-format"},
+			{fmt.Sprintf("legacy%d@site.test", unit), "$2a$10$tooshort", "truncated-bcrypt-hash"},
+		}
+		for _, o := range odd {
+			o := o
+			u := &world.User{PID: o.pid, Email: o.pid, Password: o.pw, Confirmed: true}
+			if strings.HasPrefix(o.pid, "oauth2;;") {
+				u.OAuth2Provider, u.OAuth2UID = "alpha", strings.TrimPrefix(o.pid, "oauth2;;alpha;;")
+			}
+			w.Store.Put(u)
+			f := map[string]string{}
+			extra(f)
+			pair("unknown-account-vs-wrong-password", "unusable-stored-hash/"+o.what, func(v int) (world.Req, string) {
+				pid := o.pid
+				if v == 0 {
+					pid = "nobody-" + o.pid
+				}
+				form := map[string]string{"email": pid, "password": "Wr0ng!pass1"}
+				for k, x := range f {
+					form[k] = x
+				}
+				return world.Req{Method: "POST", Path: w.P("/login"), Form: form}, pid
+			})
+			c.Stats.Count("pairs:unusable-stored-hash")
+		}
+	}
 	if unit%25 == 0 {
 		c.Stats.Sample(map[string]interface{}{"unit": unit, "config": cfg, "example_pair": "POST /login {pid, correct pw} vs {pid, wrong pw} for a locked account; outcomes compared byte for byte after canonicalising sid and the submitted pid"})
 	}
@@ -221,7 +254,7 @@ func c16Unit(c *RunCtx, unit int) {
 func init() {
 	register(&Check{
 		ID: "C16", Level: "exploration",
-		Rule:  "two-run monitor: from one snapshot of the whole world (storage, sessions, jar, outboxes, virtual clock) request A is run, the outcome recorded, the snapshot restored, request B run; status, every header, body, the browser's resulting session map and cookie jar are compared byte for byte (only the sid value and the submitted identifier canonicalised). Pairs: (a) correct vs incorrect password / OTP for a locked, confirmed account; (b) recovery start for an existing vs a similar non-existing identifier; (c) login / OTP login for an unknown identifier vs a known one with a wrong secret, restricted — decided from storage and the statement's lock automaton BEFORE running — to accounts that are not locked and that this attempt does not lock. Account states come from a random prelude of failures, successes, manual lock/unlock and clock advances over random module subsets, load orders of lock/confirm, LockAfter 1-4, with rm/redir present or not, form and JSON. distinct_nontrivial = distinct (pair kind, account state, mode, load order, outcome) signatures.",
+		Rule:  "two-run monitor: from one snapshot of the whole world (storage, sessions, jar, outboxes, virtual clock) request A is run, the outcome recorded, the snapshot restored, request B run; status, every header, body, the browser's resulting session map and cookie jar are compared byte for byte (only the sid value and the submitted identifier canonicalised). Pairs: (a) correct vs incorrect password / OTP for a locked, confirmed account; (b) recovery start for an existing vs a similar non-existing identifier; (c) login / OTP login for an unknown identifier vs a known one with a wrong secret, restricted — decided from storage and the statement's lock automaton BEFORE running — to accounts that are not locked and that this attempt does not lock; the known side also includes accounts whose stored password is no usable hash (OAuth2-created, empty, foreign format, truncated). Account states come from a random prelude of failures, successes, manual lock/unlock and clock advances over random module subsets, load orders of lock/confirm, LockAfter 1-4, with rm/redir present or not, form and JSON. distinct_nontrivial = distinct (pair kind, account state, mode, load order, outcome) signatures.",
 		Units: func(t string) int { return tierN(t, 500, 40000) },
 		Run:   c16Unit,
 		Floors: func(t string) map[string]int {
